@@ -285,6 +285,8 @@ class ControllerApplication:
         :param int pgn: pgn to be requested
         :param list data: destination address
         """
+        # the data page belongs to the requested pgn; the request message itself (PGN 59904) is always on page 0
+        pgn = pgn | ((data_page & 0x01) << 16)
         if self.state != ControllerApplication.State.NORMAL:
             if pgn != j1939.ParameterGroupNumber.PGN.ADDRESSCLAIM:
                 raise RuntimeError("Could not send request message unless address claiming has finished")
@@ -293,7 +295,7 @@ class ControllerApplication:
             source_address = self._device_address
 
         data = [(pgn & 0xFF), ((pgn >> 8) & 0xFF), ((pgn >> 16) & 0xFF)]
-        self._ecu.send_pgn(data_page, (j1939.ParameterGroupNumber.PGN.REQUEST >> 8) & 0xFF, destination & 0xFF, 6, source_address, data)
+        self._ecu.send_pgn(0, (j1939.ParameterGroupNumber.PGN.REQUEST >> 8) & 0xFF, destination & 0xFF, 6, source_address, data)
 
     def _send_address_claimed(self, address):
         # TODO: Normally the (initial) address claimed message must not be an auto repeat message.
